@@ -101,6 +101,14 @@ def check(run, project):
     discarded_generators(run, project, "R9")
     r6(run, project)
     r7(run, project)
+    # R10: which bytes a TPM2B size of the first parameter governs depends on the layout the message walker selects for the
+    # parameter area - the opaque TPM2B_ENCRYPTED_PARAM exactly when a session of that message requests it (command: decrypt,
+    # response: encrypt).  The framing obligations of C01-F and the which-bit rule C09-S3, judged here for this property
+    from ..report import RuleView
+    from . import c01
+    from .c09 import s3
+    c01.framing(RuleView(run, "F", "R10"), roles, L)
+    s3(RuleView(run, "S3", "R10"), roles, L)
     run.floor("R1", 20, "region obligations")
     run.floor("R4", 20, "threaded call sites")
 
